@@ -95,8 +95,44 @@ def run_worker(binp, env_extra, outfile, timeout=None):
     env = goenv()
     env.update(env_extra)
     env["VERIF_OUT"] = outfile
-    return subprocess.Popen([binp, "-test.run", "^TestWorker$", "-test.timeout", "0", "-test.cpu", "1"],
-                            env=env, stdout=subprocess.PIPE, stderr=subprocess.STDOUT, text=True)
+    # the worker's stdout/stderr go to a file, never to a pipe: a goroutine dump
+    # (watchdog, fatal error) is larger than a pipe buffer and nobody reads
+    # the pipe before the process has exited
+    logf = open(outfile + ".log", "w+", errors="replace")
+    pr = subprocess.Popen([binp, "-test.run", "^TestWorker$", "-test.timeout", "0", "-test.cpu", "1"],
+                          env=env, stdout=logf, stderr=subprocess.STDOUT)
+    return Worker(pr, logf)
+
+class _Log:
+    def __init__(self, f):
+        self.f = f
+    def read(self):
+        self.f.flush()
+        self.f.seek(0)
+        t = self.f.read()
+        if len(t) > 4 << 20:
+            t = t[:2 << 20] + "\n[...]\n" + t[-(2 << 20):]
+        return t
+
+class Worker:
+    """a worker process whose output is collected in a file"""
+    def __init__(self, pr, logf):
+        self.pr, self.stdout = pr, _Log(logf)
+    def poll(self):
+        return self.pr.poll()
+    def kill(self):
+        return self.pr.kill()
+    def wait(self, timeout=None):
+        return self.pr.wait(timeout)
+    @property
+    def returncode(self):
+        return self.pr.returncode
+    @property
+    def pid(self):
+        return self.pr.pid
+    def communicate(self, timeout=None):
+        self.pr.wait(timeout)
+        return (self.stdout.read(), None)
 
 def read_results(path):
     out = []
